@@ -217,6 +217,17 @@ macro_rules! ordered_for {
 		$c.fam_decode_only::<&'static [($t, $t)], BTreeMap<$t, $t>>(concat!("&[(", $tn, ", ", $tn, ")] (reversed) ~ BTreeMap"), |b| {
 			&*Box::leak(b.iter().rev().map(|(k, v)| (k.clone(), v.clone())).collect::<Vec<_>>().into_boxed_slice())
 		});
+		// a slice that repeats its elements stands for the same set / map (the repeated entry carries the
+		// same value): it must still decode, to that set / map
+		$c.fam_decode_only::<&'static [($t,)], BTreeSet<$t>>(concat!("&[(", $tn, ",)] (every element twice) ~ BTreeSet<", $tn, ">"), |b| {
+			&*Box::leak(b.iter().flat_map(|x| [(x.clone(),), (x.clone(),)]).collect::<Vec<_>>().into_boxed_slice())
+		});
+		$c.fam_decode_only::<&'static [($t, $t)], BTreeMap<$t, $t>>(concat!("&[(", $tn, ", ", $tn, ")] (every entry twice) ~ BTreeMap"), |b| {
+			&*Box::leak(b.iter().flat_map(|(k, v)| [(k.clone(), v.clone()), (k.clone(), v.clone())]).collect::<Vec<_>>().into_boxed_slice())
+		});
+		$c.fam_decode_only::<&'static [($t, $t)], BTreeMap<$t, $t>>(concat!("&[(", $tn, ", ", $tn, ")] (first entry repeated at the end) ~ BTreeMap"), |b| {
+			&*Box::leak(b.iter().chain(b.iter().take(1)).map(|(k, v)| (k.clone(), v.clone())).collect::<Vec<_>>().into_boxed_slice())
+		});
 		$c.fam::<BinaryHeap<Box<$t>>, BinaryHeap<$t>>(concat!("BinaryHeap<Box<", $tn, ">> ~ BinaryHeap<", $tn, ">"), |b| b.iter().cloned().map(Box::new).collect());
 		$c.fam::<&'static [($t,)], BinaryHeap<$t>>(concat!("&[(", $tn, ",)] ~ BinaryHeap<", $tn, ">"), |b| {
 			&*Box::leak(b.iter().cloned().map(|x| (x,)).collect::<Vec<_>>().into_boxed_slice())
